@@ -89,6 +89,19 @@ Proof.
   destruct (Consts.resume_step_guard && _); [discriminate|].
   destruct (_ <? 0)%Z; [discriminate|]. destruct (_ <=? _)%Z; [apply IH, Hall' | discriminate].
 Qed.
+(* the hash sender always produces a run of HASH records ended by Over *)
+Lemma send_hashes_shape : forall fuel stops src size step fed hs,
+  send_hashes B H fuel stops src size step fed = Some hs -> exists hl, hs = hl ++ [Over] /\ forall m, In m hl -> m <> Over.
+Proof.
+  induction fuel as [|fuel IH]; intros stops src size step fed hs; cbn [send_hashes].
+  - destruct (_ && _); [discriminate|]. intro Hx; inversion Hx. exists []. split; [reflexivity | intros m Hm; destruct Hm].
+  - destruct (_ && _).
+    + destruct (send_hashes B H fuel _ src size _ _) as [r|] eqn:E; [|discriminate]. intro Hx; inversion Hx; subst hs.
+      destruct (IH _ _ _ _ _ _ E) as (hl & -> & Hall). eexists (_ :: hl). split; [reflexivity|].
+      intros m [<-|Hm]; [discriminate | apply Hall, Hm].
+    + intro Hx; inversion Hx. exists []. split; [reflexivity | intros m Hm; destruct Hm].
+Qed.
+
 End Recv.
 
 (* ---------- one file, both ends ---------- *)
@@ -150,6 +163,22 @@ Lemma send_hashes_steps sc src old :
   let size := Nat.min (length src) (length old) in
   send_hashes B hx size (sc_hstops sc) src size 0 [] = Some (map (Proofs.Resume.mk hx src) (rs_steps sc src old) ++ [Over]).
 Proof. cbv zeta. unfold rs_steps. apply (Proofs.Resume.send_spec B hx hash_B_pos); try lia. reflexivity. Qed.
+
+(* the receiver on the records of the announced steps: it reaches Over, having answered each step
+   up to and including the first that does not match *)
+Lemma recv_honest_steps sc src old : exists rst,
+  recv_hashes B hx old (map (Proofs.Resume.mk hx src) (rs_steps sc src old) ++ [Over]) r_init = ROver rst /\
+  r_mstep rst = Z.of_nat (last (Proofs.Resume.take_good hx src old (rs_steps sc src old)) O) /\
+  r_acks rst = Proofs.Resume.acks_of hx src old (rs_steps sc src old).
+Proof.
+  destruct (rs_steps_props sc src old) as [Hi Ha]. cbv zeta in Ha.
+  assert (Ha' : Forall (fun s => s <= length old)%nat (rs_steps sc src old)).
+  { eapply Forall_impl; [|exact Ha]. cbn. intros a Hx. lia. }
+  assert (Hg : Proofs.Resume.gaps B 0 (rs_steps sc src old)).
+  { unfold rs_steps. exact (Proofs.Resume.steps_gaps B hash_B_pos (Nat.min (length src) (length old)) (sc_hstops sc) (Nat.min (length src) (length old)) 0). }
+  destruct (Proofs.Resume.recv_honest B hx hash_B_pos src old (rs_steps sc src old) 0 [] Hi Hg Ha') as (rst & Hr & Hm & Hk).
+  exists rst. split; [exact Hr|]. split; [exact Hm | exact Hk].
+Qed.
 
 (* no collision on the compared prefixes: what is there in the end is the source (C08_identical) *)
 Lemma resume_final_identical c e sc old o : tr_no_collision hx (te_data e) old ->
